@@ -860,6 +860,61 @@ fn scalars(ctx: &mut Ctx) {
     }
 }
 
+/// the elementary functions reached through nalgebra's trait path (`ComplexField::tan(z)` - what code
+/// generic over `RealField` calls) inside gradient and hessian closures: f(x, y) = g(x y)
+macro_rules! field_fn {
+    ($ctx:expr, $name:literal, $func:expr, $m:ident, $x:expr, $y:expr) => {{
+        let (x0, y0): (f64, f64) = ($x, $y);
+        let c = taylor_dd($func, DD::f(x0 * y0), 2);
+        let (g1, g2) = (c[1], c[2].mul_f(2.0));
+        let scale: f64 = c.iter().map(|v| v.abs_dd().to_f64()).fold(0.0, f64::max) * (1.0 + x0.abs() + y0.abs()).powi(2);
+        let tol = 512.0 * 1.1e-16 * scale * 6.0;
+        let shape = concat!("field path ", $name);
+        let (f, g) = gradient(|v: SVector<DualSVec64<2>, 2>| nalgebra::ComplexField::$m(v[0].clone() * v[1].clone()), SVector::from([x0, y0]));
+        $ctx.check_tol("gradient", shape, "value", f, c[0], tol);
+        $ctx.check_tol("gradient", shape, "g[0]", g[0], g1.mul_f(y0), tol);
+        $ctx.check_tol("gradient", shape, "g[1]", g[1], g1.mul_f(x0), tol);
+        let (f, g, h) = hessian(|v: SVector<Dual2SVec64<2>, 2>| nalgebra::ComplexField::$m(v[0].clone() * v[1].clone()), SVector::from([x0, y0]));
+        $ctx.check_tol("hessian", shape, "value", f, c[0], tol);
+        $ctx.check_tol("hessian", shape, "g[0]", g[0], g1.mul_f(y0), tol);
+        $ctx.check_tol("hessian", shape, "h[0,0]", h[(0, 0)], g2.mul_f(y0 * y0), tol);
+        $ctx.check_tol("hessian", shape, "h[0,1]", h[(0, 1)], g2.mul_f(x0 * y0).add_dd(g1), tol);
+        $ctx.check_tol("hessian", shape, "h[1,0]", h[(1, 0)], g2.mul_f(x0 * y0).add_dd(g1), tol);
+        $ctx.check_tol("hessian", shape, "h[1,1]", h[(1, 1)], g2.mul_f(x0 * x0), tol);
+        let (f, g) = gradient(|v: DVector<DualDVec64>| nalgebra::ComplexField::$m(v[0].clone() * v[1].clone()), DVector::from_row_slice(&[x0, y0]));
+        $ctx.check_tol("gradient", shape, "dyn value", f, c[0], tol);
+        $ctx.check_tol("gradient", shape, "dyn g[1]", g[1], g1.mul_f(x0), tol);
+        let (_, _, h) = hessian(|v: DVector<Dual2DVec64>| nalgebra::ComplexField::$m(v[0].clone() * v[1].clone()), DVector::from_row_slice(&[x0, y0]));
+        $ctx.check_tol("hessian", shape, "dyn h[0,1]", h[(0, 1)], g2.mul_f(x0 * y0).add_dd(g1), tol);
+    }};
+}
+
+fn field_path_closures(ctx: &mut Ctx) {
+    use refmodel::Func;
+    field_fn!(ctx, "sin", Func::Sin, sin, 0.5, 1.5);
+    field_fn!(ctx, "cos", Func::Cos, cos, 0.5, 1.5);
+    field_fn!(ctx, "tan", Func::Tan, tan, 0.5, 1.5);
+    field_fn!(ctx, "asin", Func::Asin, asin, 0.5, 1.5);
+    field_fn!(ctx, "acos", Func::Acos, acos, 0.5, 1.5);
+    field_fn!(ctx, "atan", Func::Atan, atan, 0.5, 1.5);
+    field_fn!(ctx, "sinh", Func::Sinh, sinh, 0.5, 1.5);
+    field_fn!(ctx, "cosh", Func::Cosh, cosh, 0.5, 1.5);
+    field_fn!(ctx, "tanh", Func::Tanh, tanh, 0.5, 1.5);
+    field_fn!(ctx, "asinh", Func::Asinh, asinh, 0.5, 1.5);
+    field_fn!(ctx, "acosh", Func::Acosh, acosh, 2.0, 0.75);
+    field_fn!(ctx, "atanh", Func::Atanh, atanh, 0.5, 1.5);
+    field_fn!(ctx, "exp", Func::Exp, exp, 0.5, 1.5);
+    field_fn!(ctx, "exp2", Func::Exp2, exp2, 0.5, 1.5);
+    field_fn!(ctx, "exp_m1", Func::ExpM1, exp_m1, 0.5, 1.5);
+    field_fn!(ctx, "ln", Func::Ln, ln, 0.5, 1.5);
+    field_fn!(ctx, "ln_1p", Func::Ln1p, ln_1p, 0.5, 1.5);
+    field_fn!(ctx, "log2", Func::Log2, log2, 0.5, 1.5);
+    field_fn!(ctx, "log10", Func::Log10, log10, 0.5, 1.5);
+    field_fn!(ctx, "sqrt", Func::Sqrt, sqrt, 0.5, 1.5);
+    field_fn!(ctx, "cbrt", Func::Cbrt, cbrt, 0.5, 1.5);
+    field_fn!(ctx, "recip", Func::Recip, recip, 0.5, 1.5);
+}
+
 /// an integrand written with the iterator adaptors, by reference and by value
 fn reduce<D>(v: &[D]) -> D
 where
@@ -908,6 +963,7 @@ fn iterator_closures(ctx: &mut Ctx) {
 fn run_all(st: &mut Stats) {
     let mut ctx = Ctx { st };
     iterator_closures(&mut ctx);
+    field_path_closures(&mut ctx);
     grad_static!(ctx, 1, 2, 3, 4, 5, 6);
     jac_static!(ctx, 1, 1, 2, 3, 4, 5, 6);
     jac_static!(ctx, 2, 1, 2, 3, 4, 5, 6);
@@ -952,7 +1008,7 @@ fn main() {
         mode: cli.mode,
         seed: cli.seed,
         start,
-        rule: "the twenty public drivers x input lengths n = 0..6 and output lengths m = 1..6 (static where the type system allows: gradient/hessian n = 1..6, jacobian all (m,n) in 1..6 x 1..6, partial_hessian (m,n) <= 4 and (6,1),(6,6),(1,6); dynamic for all lengths incl. 0) x two integer points x asymmetric integer polynomials containing every monomial of degree <= 3 with pairwise distinct coefficients (so every partial up to order 3 is non-zero and no two are equal) and, for every second function, that polynomial divided by a linear form equal to 2 at the point (quotient rules; all values stay small dyadic rationals); all n^3 index triples of third_partial_derivative_vec for n <= 5; try_ variants with unit-struct, String and integer errors; constant / partially constant functions (absent parts); nested use T = Dual64 (gradient, first/second/third_derivative, second_partial_derivative: the eps parts carry one more derivative order); non-polynomial integrands against reference Taylor coefficients; squares through powi(2) / powf(2) / &q * &q; results with hand-built presence patterns (all 4 of Dual2Vec, all 8 of HyperDualVec); closures written with nalgebra's vector API (norm, norm_squared, normalize, dot) and with the iterator adaptors sum() / product() by reference and by value; a polynomial times t.recip() * t (the constant one, through the chain rule) under the nested scalar drivers; polar coordinates (sqrt, atan2 in both branches and all quadrants) through gradient, hessian, jacobian, partial_hessian and second_partial_derivative. Non-trivial = a derivative entry whose exact value is neither 0 nor 1.".into(),
+        rule: "the twenty public drivers x input lengths n = 0..6 and output lengths m = 1..6 (static where the type system allows: gradient/hessian n = 1..6, jacobian all (m,n) in 1..6 x 1..6, partial_hessian (m,n) <= 4 and (6,1),(6,6),(1,6); dynamic for all lengths incl. 0) x two integer points x asymmetric integer polynomials containing every monomial of degree <= 3 with pairwise distinct coefficients (so every partial up to order 3 is non-zero and no two are equal) and, for every second function, that polynomial divided by a linear form equal to 2 at the point (quotient rules; all values stay small dyadic rationals); all n^3 index triples of third_partial_derivative_vec for n <= 5; try_ variants with unit-struct, String and integer errors; constant / partially constant functions (absent parts); nested use T = Dual64 (gradient, first/second/third_derivative, second_partial_derivative: the eps parts carry one more derivative order); non-polynomial integrands against reference Taylor coefficients; squares through powi(2) / powf(2) / &q * &q; results with hand-built presence patterns (all 4 of Dual2Vec, all 8 of HyperDualVec); closures written with nalgebra's vector API (norm, norm_squared, normalize, dot) and with the iterator adaptors sum() / product() by reference and by value; the 22 elementary functions called through nalgebra's ComplexField path inside gradient / hessian closures (static and dynamic); a polynomial times t.recip() * t (the constant one, through the chain rule) under the nested scalar drivers; polar coordinates (sqrt, atan2 in both branches and all quadrants) through gradient, hessian, jacobian, partial_hessian and second_partial_derivative. Non-trivial = a derivative entry whose exact value is neither 0 nor 1.".into(),
         assumptions: vec!["expected values by symbolic differentiation of the coefficient tables in integer arithmetic (Leibniz rule for the quotient by the linear form); all values are small integers or dyadic rationals, so equality is exact".into()],
         extra: json!({"oracle": "exact integer partial derivatives; Err identity; Ok results bit-equal to the infallible variants"}),
         exhaustive: true,
